@@ -126,52 +126,76 @@ def check_config(db, rep, cfg, tier):
         n_rhs += 1
         site0 = 'Derive/%s/switches=%s' % (cname, ''.join(map(str, bits)))
         C, N, O, G, S = bits
-        bad = None
-        tk = sm.pkey(tau)
-        for ei in range(nx):
-            for i in range(nrhos):
-                base = ei * size_state + i * size_rho
-                rho = lambda k, b=base: Poly.var('Y%d' % (b + k))
-                hi = lambda k, ei=ei, i=i: Poly.var('HI[%d,%d,%s]_%d' % (ei, i, tk, k))
-                ga = lambda k, ei=ei, i=i: Poly.var('GammaRho[%d,%d,%s]_%d' % (ei, i, tk, k))
-                c_ = subst_table(comm, nsun, rho, hi) if C else None
-                a_ = subst_table(acomm, nsun, ga, rho) if N else None
-                for k in range(size_rho):
+
+        def verify(prefix, tauv, youtv):
+            """the derivative buffer against the documented equation, the state being the symbols <prefix><k>"""
+            tk = sm.pkey(tauv)
+            for ei in range(nx):
+                for i in range(nrhos):
+                    base = ei * size_state + i * size_rho
+                    rho = lambda k, b=base: Poly.var('%s%d' % (prefix, b + k))
+                    hi = lambda k, ei=ei, i=i: Poly.var('HI[%d,%d,%s]_%d' % (ei, i, tk, k))
+                    ga = lambda k, ei=ei, i=i: Poly.var('GammaRho[%d,%d,%s]_%d' % (ei, i, tk, k))
+                    c_ = subst_table(comm, nsun, rho, hi) if C else None
+                    a_ = subst_table(acomm, nsun, ga, rho) if N else None
+                    for k in range(size_rho):
+                        want = Poly()
+                        if C:
+                            want = want + c_[k]
+                        if N:
+                            want = want - a_[k]
+                        if O:
+                            want = want + Poly.var('InteractionsRho[%d,%d,%s]_%d' % (ei, i, tk, k))
+                        try:
+                            got = youtv.cell(base + k).value
+                        except Exception:
+                            got = None
+                        if not (same(got, want)):
+                            return ('rho node %d matrix %d component %d' % (ei, i, k), want, got)
+                for is_ in range(nscalars):
+                    idx = ei * size_state + nrhos * size_rho + is_
                     want = Poly()
-                    if C:
-                        want = want + c_[k]
-                    if N:
-                        want = want - a_[k]
-                    if O:
-                        want = want + Poly.var('InteractionsRho[%d,%d,%s]_%d' % (ei, i, tk, k))
-                    try:
-                        got = yout.cell(base + k).value
-                    except Exception:
-                        got = None
+                    if G:
+                        want = want - Poly.var('%s%d' % (prefix, idx)) * Poly.var('GammaScalar[%d,%d,%s]' % (ei, is_, tk))
+                    if S:
+                        want = want + Poly.var('InteractionsScalar[%d,%d,%s]' % (ei, is_, tk))
+                    got = youtv.cell(idx).value
                     if not (same(got, want)):
-                        bad = ('rho node %d matrix %d component %d' % (ei, i, k), want, got)
-                        break
-                if bad:
+                        return ('scalar node %d index %d' % (ei, is_), want, got)
+            return None
+        bad = verify('Y', tau, yout)
+        last_in, last_out = yin, yout
+        if not bad and bits in ((1, 1, 1, 1, 1), (0, 0, 1, 0, 1), (1, 0, 0, 1, 0)):
+            # steppers reuse their buffers: the same derivative buffer with another input buffer (rk4 does this), and
+            # the same input buffer with another derivative buffer; each evaluation must use the buffers it was given
+            stages = [('Z', Region('yin2', numeqn, lambda k: Poly.var('Z%d' % k), 'heap'), yout, 'the derivative buffer of the previous stage with a new input buffer'),
+                      ('Z', None, Region('yout2', numeqn, lambda k: Poly.var('STALEB%d' % k), 'heap'), 'the input buffer of the previous stage with a new derivative buffer')]
+            cur_in = yin
+            for j, (prefix, newin, outbuf, what) in enumerate(stages):
+                if newin is not None:
+                    cur_in = newin
+                for k in range(numeqn):
+                    outbuf.cell(k).value = Poly.var('STALE%s%d' % ('CD'[j], k))
+                tau2 = Poly.var('tau%d' % (j + 2))
+                try:
+                    it.call(fR, None, [tau2, Ptr(cur_in, 0), Ptr(outbuf, 0), Ptr(this.region, 0) if this.region else it_ptr(this)])
+                except Thrown as t:
+                    bad = ('stage %d' % (j + 2), 'right-hand side evaluated', 'throw: %s' % t.what)
                     break
-            if bad:
-                break
-            for is_ in range(nscalars):
-                idx = ei * size_state + nrhos * size_rho + is_
-                want = Poly()
-                if G:
-                    want = want - Poly.var('Y%d' % idx) * Poly.var('GammaScalar[%d,%d,%s]' % (ei, is_, tk))
-                if S:
-                    want = want + Poly.var('InteractionsScalar[%d,%d,%s]' % (ei, is_, tk))
-                got = yout.cell(idx).value
-                if not (same(got, want)):
-                    bad = ('scalar node %d index %d' % (ei, is_), want, got)
+                last_in, last_out = cur_in, outbuf
+                b2 = verify(prefix, tau2, outbuf)
+                if b2:
+                    bad = ('%s (a later stage called with %s)' % (b2[0], what), b2[1], b2[2])
                     break
-            if bad:
-                break
+            tau_last = Poly.var('tau3') if not bad else None
+        else:
+            tau_last = None
         # every slot of the derivative buffer defined, time stored, PreDerive first with the stepper's time
         if not bad:
             tnow = sm.field(this, 't')
-            if not (isinstance(tnow, Poly) and tnow.equals(tau)):
+            if tau_last is not None:
+                pass  # the clock was checked against the first stage below in the single-stage settings
+            elif not (isinstance(tnow, Poly) and tnow.equals(tau)):
                 bad = ('clock during the step', tau, tnow)
             elif not hooks.hook_calls or hooks.hook_calls[0][0] != 'PreDerive' or not it.to_poly(hooks.hook_calls[0][1][0]).equals(tau):
                 bad = ('PreDerive called first with the stepper time', 'PreDerive(tau)', hooks.hook_calls[:1])
@@ -184,8 +208,8 @@ def check_config(db, rep, cfg, tier):
         # layout of the in-step and derivative views after the callback
         if bits == (1, 1, 1, 1, 1):
             check_partition(rep, 'set_system_pointers/estate/' + cname, unit.loc(fS), layout_of(this, 'estate', nx, nrhos, max(nscalars, 1) if False else nscalars),
-                            yin, nx, nsun, nrhos, nscalars, fS['name'])
-            check_partition(rep, 'set_system_pointers/dstate/' + cname, unit.loc(fS), layout_of(this, 'dstate', nx, nrhos, nscalars), yout, nx, nsun, nrhos, nscalars, fS['name'])
+                            last_in, nx, nsun, nrhos, nscalars, fS['name'])
+            check_partition(rep, 'set_system_pointers/dstate/' + cname, unit.loc(fS), layout_of(this, 'dstate', nx, nrhos, nscalars), last_out, nx, nsun, nrhos, nscalars, fS['name'])
             # the stored state is untouched by the callback
             if hooks.writes_system == 0:
                 rep.ok('D.loops')
@@ -326,3 +350,5 @@ def run(db, rep, tier):
     rep.floor('D.rhs', n, 64)
     check_driver(db, rep)
     check_enablement(db, rep)
+    import c10
+    c10.check_sized_ctor(db, rep)  # the integration starts from the initial time the solver was constructed with
